@@ -97,3 +97,31 @@ Proof. vm_compute. repeat split; auto. Qed.
 Example ex_first_init_hypothesis :
   forallb (fun i => negb (is_init i)) [IFinal 7; IExec b1; IReopen; IExec b2] = true.
 Proof. vm_compute. reflexivity. Qed.
+
+(* ---- KVExecutor.ExecuteTxs TRANSLATED FROM THE SOURCE (Check/GoLiteKVExec.v, regenerated on every run) -------------
+   The translated body of the walk over a block's transactions stages exactly the pair parse_tx yields and leaves
+   the function exactly when parse_tx yields none; the walk with that body refines parse_block; and the translated
+   function commits the batch exactly for the blocks the model calls block_ok — in the worlds the model's string
+   functions describe (SplitN = split_eq, TrimSpace = trim, ds.NewKey = clean_key). *)
+From Verif Require Check.GoLiteKVExec Proofs.GoLiteKVExecRefine.
+Theorem C15_translated_tx_refines_parse_tx_full : forall tx,
+  GoLiteKVExec.staged (GoLiteKVExecRefine.world_of tx) = match KVExec.parse_tx tx with Some p => [p] | None => [] end /\
+  GoLiteKVExec.left_fn (GoLiteKVExecRefine.world_of tx) = match KVExec.parse_tx tx with Some _ => false | None => true end.
+Proof. exact GoLiteKVExecRefine.tx_refines_parse_tx. Qed.
+Print Assumptions C15_translated_tx_refines_parse_tx_full.
+
+Theorem C15_translated_walk_refines_parse_block_full : forall txs,
+  match KVExec.parse_block txs with
+  | Some ps => GoLiteKVExecRefine.code_walk txs = (false, ps)
+  | None => fst (GoLiteKVExecRefine.code_walk txs) = true
+  end.
+Proof. exact GoLiteKVExecRefine.walk_refines_parse_block. Qed.
+Print Assumptions C15_translated_walk_refines_parse_block_full.
+
+(* a block with a refused transaction commits nothing: all or nothing, from the translated function *)
+Theorem C15_translated_refused_block_commits_nothing_full : forall w : GoLiteKVExec.xworld,
+  GoLiteKVExec.x_left w = true ->
+  filter (fun e => match e with GoLite.VEff n _ => String.eqb n "batch.Commit" | _ => false end)
+         (snd (GoLiteKVExec.exec_expect w)) = [].
+Proof. exact GoLiteKVExec.refused_block_commits_nothing. Qed.
+Print Assumptions C15_translated_refused_block_commits_nothing_full.
